@@ -2,7 +2,7 @@
 from harness import asmcheck
 
 WHAT = ['status', 'image']
-KINDS = {'lab', 'const', 'i2', 'labreg', 'labkw'}
+KINDS = {'lab', 'const', 'i2', 'labreg', 'labkw', 'fillr'}
 BASE = {'addr_bits': 16, 'origin': 0, 'page_size': 4, 'pre_zones_op': 'ZonesA', 'pre_zones': [('z1', 8, 11), ('z2', 10, 13)],
         'pre_data_op': 'DataA', 'pre_data': [('pd1', 6, 85, 2)]}
 
@@ -13,6 +13,7 @@ def instances(tier):
         yield 'core4', dict(BASE, max_len=4, win_end=20), 'AlphaC06core', None
         yield 'len3', dict(BASE, max_len=3, win_end=20), 'AlphaC06', None
         yield 'sim7', dict(BASE, max_len=7, win_end=20), 'AlphaC06', 'num=6000'
+        yield 'empty4', dict(BASE, max_len=4, win_end=20), 'AlphaC06empty', None
         yield 'mute4', dict(BASE, max_len=4, win_end=20), 'AlphaC06mute', None
         yield 'core4-labels-in-front', dict(BASE, max_len=4, win_end=20, join_labels=True), 'AlphaC06core', None
         yield 'files3', dict(BASE, max_len=15, win_end=24, blocks_op='BlocksScope', emit_inv='EmitInc'), 'MCNoAlphabet', None
@@ -21,6 +22,7 @@ def instances(tier):
         yield 'len4', dict(BASE, max_len=4, win_end=20), 'AlphaC06', None
         yield 'sim6', dict(BASE, max_len=6, win_end=20), 'AlphaC06', 'num=40000'
         yield 'sim9', dict(BASE, max_len=9, win_end=20), 'AlphaC06', 'num=40000'
+        yield 'empty5', dict(BASE, max_len=5, win_end=20), 'AlphaC06empty', None
         yield 'mute5', dict(BASE, max_len=5, win_end=20), 'AlphaC06mute', None
         yield 'core5-labels-in-front', dict(BASE, max_len=5, win_end=20, join_labels=True), 'AlphaC06core', None
         yield 'files4', dict(BASE, max_len=20, win_end=30, blocks_op='BlocksScope', emit_inv='EmitInc'), 'MCNoAlphabet', None
